@@ -1231,65 +1231,81 @@ pub fn eval_type(
 
             match &symbol.found.kind {
                 SymbolKind::Struct(x) => {
-                    context.push_generic_map(map.clone());
+                    // `S { x: T }` / `T { y: S }`: the name check below only sees a
+                    // direct self reference (type_dag reports the cycle, but the
+                    // language server and `dump` evaluate anyway).
+                    if context.push_typedef_visiting(symbol.found.id) {
+                        context.push_generic_map(map.clone());
 
-                    let members = context.block(|c| {
-                        let mut members = vec![];
-                        for x in &x.members {
-                            let member = symbol_table::get(*x).unwrap();
-                            let name = member.token.text;
+                        let members = context.block(|c| {
+                            let mut members = vec![];
+                            for x in &x.members {
+                                let member = symbol_table::get(*x).unwrap();
+                                let name = member.token.text;
 
-                            if let SymbolKind::StructMember(x) = member.kind {
-                                if symbol.found.token.text == x.r#type.token.beg.text {
-                                    // Prevent cyclic reference
-                                    continue;
+                                if let SymbolKind::StructMember(x) = member.kind {
+                                    if symbol.found.token.text == x.r#type.token.beg.text {
+                                        // Prevent cyclic reference
+                                        continue;
+                                    }
+
+                                    let r#type = x.r#type.to_ir_type(c, TypePosition::Variable)?;
+                                    members.push(ir::TypeKindMember { name, r#type });
                                 }
-
-                                let r#type = x.r#type.to_ir_type(c, TypePosition::Variable)?;
-                                members.push(ir::TypeKindMember { name, r#type });
                             }
-                        }
 
-                        check_struct_union_members(c, &members, &symbol.found);
-                        Ok(members)
-                    });
+                            check_struct_union_members(c, &members, &symbol.found);
+                            Ok(members)
+                        });
 
-                    context.pop_generic_map();
+                        context.pop_generic_map();
+                        context.pop_typedef_visiting();
 
-                    ir::TypeKind::Struct(Arc::new(ir::TypeKindStruct {
-                        id: symbol.found.id,
-                        members: members?,
-                    }))
+                        ir::TypeKind::Struct(Arc::new(ir::TypeKindStruct {
+                            id: symbol.found.id,
+                            members: members?,
+                        }))
+                    } else {
+                        ir::TypeKind::Unknown
+                    }
                 }
                 SymbolKind::Union(x) => {
-                    context.push_generic_map(map.clone());
+                    // `S { x: T }` / `T { y: S }`: the name check below only sees a
+                    // direct self reference (type_dag reports the cycle, but the
+                    // language server and `dump` evaluate anyway).
+                    if context.push_typedef_visiting(symbol.found.id) {
+                        context.push_generic_map(map.clone());
 
-                    let members = context.block(|c| {
-                        let mut members = vec![];
-                        for x in &x.members {
-                            let member = symbol_table::get(*x).unwrap();
-                            let name = member.token.text;
-                            if let SymbolKind::UnionMember(x) = member.kind {
-                                if symbol.found.token.text == x.r#type.token.beg.text {
-                                    // Prevent cyclic reference
-                                    continue;
+                        let members = context.block(|c| {
+                            let mut members = vec![];
+                            for x in &x.members {
+                                let member = symbol_table::get(*x).unwrap();
+                                let name = member.token.text;
+                                if let SymbolKind::UnionMember(x) = member.kind {
+                                    if symbol.found.token.text == x.r#type.token.beg.text {
+                                        // Prevent cyclic reference
+                                        continue;
+                                    }
+
+                                    let r#type = x.r#type.to_ir_type(c, TypePosition::Variable)?;
+                                    members.push(ir::TypeKindMember { name, r#type });
                                 }
-
-                                let r#type = x.r#type.to_ir_type(c, TypePosition::Variable)?;
-                                members.push(ir::TypeKindMember { name, r#type });
                             }
-                        }
 
-                        check_struct_union_members(c, &members, &symbol.found);
-                        Ok(members)
-                    });
+                            check_struct_union_members(c, &members, &symbol.found);
+                            Ok(members)
+                        });
 
-                    context.pop_generic_map();
+                        context.pop_generic_map();
+                        context.pop_typedef_visiting();
 
-                    ir::TypeKind::Union(Arc::new(ir::TypeKindUnion {
-                        id: symbol.found.id,
-                        members: members?,
-                    }))
+                        ir::TypeKind::Union(Arc::new(ir::TypeKindUnion {
+                            id: symbol.found.id,
+                            members: members?,
+                        }))
+                    } else {
+                        ir::TypeKind::Unknown
+                    }
                 }
                 SymbolKind::Enum(x) => {
                     let r#type = if let Some(enum_type) = &x.r#type {
